@@ -108,7 +108,7 @@ theorem adxC_calc (f : Nat) (cs : List (Candle F)) (i : Int) :
 /-! ### the engine on the ADX tree -/
 
 /-- `calcLoop` of a node whose `_calculate_reading` is `C` from fuel `K` on -/
-theorem calcLoop_withK (K : Nat) (hK : 1 ≤ K) (ind : Ind F) (C : List (Candle F) → Int → PyM (Val F × List (Candle F)))
+theorem Adx.calcLoop_withK (K : Nat) (hK : 1 ≤ K) (ind : Ind F) (C : List (Candle F) → Int → PyM (Val F × List (Candle F)))
     (hC : ∀ f cs i, calcReading (f + K) ind cs i = C cs i) :
     ∀ (n fuel : Nat) (cs : List (Candle F)) (k : Nat), n + K ≤ fuel →
       calcLoop fuel ind cs k n = Gen.nodeLoop (specWith ind C) cs k n := by
@@ -170,7 +170,7 @@ theorem engineCalc_adx (cs : List (Candle F)) :
     | ok c₂ =>
       simp only
       have l2 := leafCalc_length _ c₁ c₂ h2
-      rw [calcLoop_withK 7 (by omega) (adxP name round p signal) (adxC name p signal)
+      rw [Adx.calcLoop_withK 7 (by omega) (adxP name round p signal) (adxC name p signal)
         (adxC_calc name round p signal) _ _ _ _ (by omega)]
       unfold Gen.nodeCalc
       have hnm : (specWith (adxP (F := F) name round p signal) (adxC name p signal)).name
@@ -336,8 +336,12 @@ theorem stepLeaf_rma (Z : Ind F) (q : Int) (inp : String) (hk : Z.kind = .rma q 
     pure (H ++ setKey Z.isSub Z.name (v.roundBy Z.round) c :: rest)) = _
   rw [← trunc_append_cons H c rest, rma_trunc _ q inp (by simp) (by simp) hq]
 
-theorem bind_ok' {α β : Type} (a : α) (f : α → PyM β) : ((Except.ok a : PyM α) >>= f) = f a := rfl
-theorem bind_err' {α β : Type} (e : PyErr) (f : α → PyM β) : ((Except.error e : PyM α) >>= f) = Except.error e := rfl
+/- (not stated as `rfl`-lemmas on purpose: `simp` then builds explicit rewrite proofs instead of
+leaving a large definitional unfolding to the kernel) -/
+theorem bind_ok' {α β : Type} (a : α) (f : α → PyM β) : ((Except.ok a : PyM α) >>= f) = f a :=
+  Eq.trans rfl rfl
+theorem bind_err' {α β : Type} (e : PyErr) (f : α → PyM β) :
+    ((Except.error e : PyM α) >>= f) = Except.error e := Eq.trans rfl rfl
 
 end Hex.Adx
 
@@ -701,5 +705,493 @@ theorem adxK1_cur (hn : AdxNames name) (hp : 1 ≤ p) (hs : 1 ≤ signal) (H : L
     simp only [bind_ok', pure_bind]
     exact adxK2_cur name round p signal hn hp hs H c rest _ _ _ a b hab post hpost
 
+/-- **the node's step on `H ++ c :: rest`**: compute from `H` and `c` only, store on `c` -/
+theorem stepWith_adxC (hn : AdxNames name) (hp : 1 ≤ p) (hs : 1 ≤ signal) (H : List (Candle F)) (c : Candle F)
+    (rest : List (Candle F)) :
+    stepWith (adxP name round p signal) (adxC name p signal) (H ++ c :: rest) H.length = (do
+      let z ← adxVal name p signal H c
+      pure (H ++ adxApp name round z c :: rest)) := by
+  have hpost : ∀ (v : Val F) (cs' : List (Candle F)),
+      (fun (r : Val F × List (Candle F)) => match r with
+        | (v, cs') => setReading (adxP (F := F) name round p signal).isSub (adxP (F := F) name round p signal).name
+            cs' H.length (v.roundBy (adxP (F := F) name round p signal).round)) (v, cs')
+        = setReading false name cs' H.length (v.roundBy round) := fun _ _ => rfl
+  show (adxC name p signal (H ++ c :: rest) H.length >>= fun (r : Val F × List (Candle F)) => match r with
+        | (v, cs') => setReading (adxP (F := F) name round p signal).isSub (adxP (F := F) name round p signal).name
+            cs' H.length (v.roundBy (adxP (F := F) name round p signal).round)) = _
+  unfold adxC adxVal
+  rw [adx_unfold]
+  by_cases hpos : (H.length : Int) > 0
+  · have hd : (!decide ((H.length : Int) > 0)) = false := by simp only [hpos, decide_true, Bool.not_true]
+    simp only [hd, Bool.false_eq_true, if_false, Ctx.num_cur, num_back H c rest name _ hpos]
+    cases (readingByCandle c "high").asNum with
+    | error e => simp only [bind_err']
+    | ok hi =>
+      simp only [bind_ok']
+      cases (Ctx.lastReading "high" H).asNum with
+      | error e => simp only [bind_err']
+      | ok hpv =>
+        simp only [bind_ok']
+        cases (Ctx.lastReading "low" H).asNum with
+        | error e => simp only [bind_err']
+        | ok lp =>
+          simp only [bind_ok']
+          cases (readingByCandle c "low").asNum with
+          | error e => simp only [bind_err']
+          | ok lo =>
+            simp only [bind_ok']
+            exact adxK1_cur name round p signal hn hp hs H c rest _ _ _ hpost
+  · have hd : (!decide ((H.length : Int) > 0)) = true := by simp only [hpos, decide_false, Bool.not_false]
+    simp only [hd, if_true, pure_bind, bind_ok', setReading_eq, updateAt_append_cons]
+    rfl
+
+
+/-! #### what the value reads off the current candle -/
+
+theorem adxSt_inds (d a b : Val F) (c : Candle F) : (adxSt name d a b c).inds = c.inds := rfl
+
+theorem rbc_adxSt_atr (hn : AdxNames name) (d a b : Val F) (c : Candle F) :
+    readingByCandle (adxSt name d a b c) (name ++ "_atr") = readingByCandle c (name ++ "_atr") := by
+  unfold adxSt
+  rw [indep_key _ _ hn.kA hn.AG.symm, indep_key _ _ hn.kA hn.AP.symm, indep_key _ _ hn.kA hn.AD.symm]
+
+theorem rbc_adxSt_pos (hn : AdxNames name) (d a b : Val F) (c : Candle F) :
+    readingByCandle (adxSt name d a b c) (name ++ "_pos") = (dlookup (name ++ "_pos") c.inds).getD a := by
+  unfold adxSt
+  rw [indep_key _ _ hn.kP hn.PG.symm, rbc_key_set _ hn.kP]
+  rfl
+
+theorem rbc_adxSt_neg (hn : AdxNames name) (d a b : Val F) (c : Candle F) :
+    readingByCandle (adxSt name d a b c) (name ++ "_neg") = (dlookup (name ++ "_neg") c.inds).getD b := by
+  unfold adxSt
+  rw [rbc_key_set _ hn.kG]
+  rfl
+
+theorem rbc_adxSt_fld (hn : AdxNames name) (fld full : String) (hs : splitDot full = [name ++ "_data", fld])
+    (d a b : Val F) (c : Candle F) :
+    readingByCandle (adxSt name d a b c) full = ((dlookup (name ++ "_data") c.inds).getD d).nested fld := by
+  unfold adxSt
+  rw [indep_dotted _ _ _ _ hs hn.DG.symm, indep_dotted _ _ _ _ hs hn.DP.symm, rbc_field_set _ _ _ hs]
+
+/-- the current candles `c`, `c'` look the same to the node's step: same bare candle, same ATR
+entry, same `.indicators` entries under the four series names (those would shadow the stores) -/
+structure AdxCur (name : String) (c c' : Candle F) : Prop where
+  bare : c.bare = c'.bare
+  atr : readingByCandle c (name ++ "_atr") = readingByCandle c' (name ++ "_atr")
+  dI : dlookup (name ++ "_data") c.inds = dlookup (name ++ "_data") c'.inds
+  pI : dlookup (name ++ "_pos") c.inds = dlookup (name ++ "_pos") c'.inds
+  gI : dlookup (name ++ "_neg") c.inds = dlookup (name ++ "_neg") c'.inds
+  xI : dlookup (name ++ "_dx") c.inds = dlookup (name ++ "_dx") c'.inds
+
+/-- the read keys of the node's own step -/
+def adxRKeys : List String :=
+  [name ++ "_atr", name ++ "_data", name ++ "_pos", name ++ "_neg", name ++ "_dx"]
+
+theorem adxVal3_congr (hn : AdxNames name) (H H' : List (Candle F)) (c c' : Candle F)
+    (hH : SimL (adxRKeys name) H H') (hc : AdxCur name c c') (positive negative : Num F) (a b : Val F)
+    (plus minus dx : Num F) :
+    adxVal3 name signal H c positive negative a b plus minus dx
+      = adxVal3 name signal H' c' positive negative a b plus minus dx := by
+  unfold adxVal3 adxDxV
+  rw [rma_cur H H' (adxSt name _ a b c) (adxSt name _ a b c') (name ++ "_dx") signal (name ++ "_data.dx")
+    (col_simL _ _ (sees_dotted _ _ _ _ hn.dDx (by simp [adxRKeys])) hH)
+    (by rw [rbc_adxSt_fld name hn _ _ hn.dDx, rbc_adxSt_fld name hn _ _ hn.dDx, hc.dI])
+    (lastReading_simL _ hn.kX _ (by simp [adxRKeys]) hH)]
+  simp only [rbc_key_set _ hn.kX, adxSt_inds, hc.xI]
+
+theorem adxVal2_congr (hn : AdxNames name) (H H' : List (Candle F)) (c c' : Candle F)
+    (hH : SimL (adxRKeys name) H H') (hc : AdxCur name c c') (positive negative : Num F) (a b : Val F) :
+    adxVal2 name signal H c positive negative a b = adxVal2 name signal H' c' positive negative a b := by
+  unfold adxVal2
+  simp only [rbc_adxSt_atr name hn, rbc_adxSt_pos name hn, rbc_adxSt_neg name hn, hc.atr, hc.pI, hc.gI,
+    adxVal3_congr name signal hn H H' c c' hH hc]
+
+theorem adxVal1_congr (hn : AdxNames name) (H H' : List (Candle F)) (c c' : Candle F)
+    (hH : SimL (adxRKeys name) H H') (hc : AdxCur name c c') (up down : Num F) :
+    adxVal1 name p signal H c up down = adxVal1 name p signal H' c' up down := by
+  unfold adxVal1
+  simp only
+  rw [adxSetV_congr name p hn H H' _ _ c c'
+    (col_simL _ _ (sees_dotted _ _ _ _ hn.dPos (by simp [adxRKeys])) hH)
+    (col_simL _ _ (sees_dotted _ _ _ _ hn.dNeg (by simp [adxRKeys])) hH)
+    (lastReading_simL _ hn.kP _ (by simp [adxRKeys]) hH)
+    (lastReading_simL _ hn.kG _ (by simp [adxRKeys]) hH)
+    (by rw [rbc_field_set _ _ _ hn.dPos, rbc_field_set _ _ _ hn.dPos, hc.dI])
+    (by rw [rbc_field_set _ _ _ hn.dNeg, rbc_field_set _ _ _ hn.dNeg, hc.dI])]
+  simp only [adxVal2_congr name signal hn H H' c c' hH hc]
+
+/-- **key locality of the value**: it only depends on the read keys of the history and on what the
+step reads off the current candle -/
+theorem adxVal_congr (hn : AdxNames name) (H H' : List (Candle F)) (c c' : Candle F)
+    (hH : SimL (adxRKeys name) H H') (hc : AdxCur name c c') :
+    adxVal name p signal H c = adxVal name p signal H' c' := by
+  unfold adxVal
+  rw [hH.length_eq, readingByCandle_attr_bare "high" noDot_high (by decide) c c' hc.bare,
+    readingByCandle_attr_bare "low" noDot_low (by decide) c c' hc.bare,
+    lastReading_sees _ "high" (sees_attr _ _ noDot_high (by decide)) hH,
+    lastReading_sees _ "low" (sees_attr _ _ noDot_low (by decide)) hH]
+  simp only [adxVal1_congr name p signal hn H H' c c' hH hc]
+
 end adxNode
 end Hex
+
+namespace Hex
+open Adx
+set_option linter.unusedSectionVars false
+variable {F : Type} [PyF F]
+
+section adxComp
+variable (name : String) (round : Nat) (p signal : Int)
+
+/-- the write keys of the node's own step -/
+def adxWKeys : List String :=
+  [name ++ "_data", name ++ "_pos", name ++ "_neg", name ++ "_dx", name]
+
+/-- **the ADX node's own step as a tolerant component**: reads the ATR key on the current candle and
+the four series of the history, writes five keys -/
+def adxCompP : TComp F where
+  name := name
+  ω := AdxW F
+  val := adxVal name p signal
+  app := adxApp name round
+  rkeys := adxRKeys name
+  wkeys := adxWKeys name
+  Raw := fun c => hasKey name c = false ∧ hasKey (name ++ "_data") c = false ∧
+    hasKey (name ++ "_pos") c = false ∧ hasKey (name ++ "_neg") c = false ∧ hasKey (name ++ "_dx") c = false
+  Settled := fun H => ∀ d ∈ H, hasKey name d = true
+  pass := Gen.nodeCalc (specWith (adxP name round p signal) (adxC name p signal))
+
+/-! #### the store -/
+
+theorem frameK_adxSt (d a b : Val F) (c : Candle F) :
+    FrameK [name ++ "_data", name ++ "_pos", name ++ "_neg"] c (adxSt name d a b c) :=
+  TComp.frameK_trans (TComp.frameK_trans (frameK_setKey true _ d c) (frameK_setKey true _ a _))
+    (frameK_setKey true _ b _)
+
+theorem frameK_adxStore (s : Option (Val F × Val F × Val F × Option (Val F))) (c : Candle F) :
+    FrameK [name ++ "_data", name ++ "_pos", name ++ "_neg", name ++ "_dx"] c (adxStore name s c) := by
+  cases s with
+  | none => exact frameK_refl _ c
+  | some t =>
+    obtain ⟨d, a, b, ox⟩ := t
+    exact TComp.frameK_trans (frameK_adxSt name d a b c) (frameK_setD _ ox _)
+
+theorem frameK_adxApp (z : AdxW F) (c : Candle F) : FrameK (adxWKeys name) c (adxApp name round z c) :=
+  TComp.frameK_trans (frameK_adxStore name z.1 c) (frameK_setKey false name _ _)
+
+theorem simK_adxApp (keys : List String) (z : AdxW F) (c c' : Candle F) (h : SimK keys c c') :
+    SimK keys (adxApp name round z c) (adxApp name round z c') := by
+  unfold adxApp
+  refine simK_setKey keys _ _ _ _ _ ?_
+  obtain ⟨s, w⟩ := z
+  cases s with
+  | none => exact h
+  | some t =>
+    obtain ⟨d, a, b, ox⟩ := t
+    exact simK_setD keys _ ox _ _
+      (simK_setKey keys _ _ _ _ _ (simK_setKey keys _ _ _ _ _ (simK_setKey keys _ _ _ _ _ h)))
+
+theorem inds_adxStore (s : Option (Val F × Val F × Val F × Option (Val F))) (c : Candle F) :
+    (adxStore name s c).inds = c.inds := by
+  cases s with
+  | none => rfl
+  | some t =>
+    obtain ⟨d, a, b, ox⟩ := t
+    cases ox <;> rfl
+
+theorem inds_adxApp (k : String) (hk : name ≠ k) (z : AdxW F) (c : Candle F) :
+    dlookup k (adxApp name round z c).inds = dlookup k c.inds := by
+  show dlookup k (dset name _ (adxStore name z.1 c).inds) = _
+  rw [dlookup_dset_ne _ _ _ _ hk, inds_adxStore]
+
+theorem Adx.entries_setD (k : String) (ov : Option (Val F)) (c : Candle F) :
+    (∀ q ∈ (setD k ov c).inds, q ∈ c.inds ∨ q.1 = k) ∧ (∀ q ∈ (setD k ov c).subs, q ∈ c.subs ∨ q.1 = k) := by
+  cases ov with
+  | none => exact ⟨fun q hq => Or.inl hq, fun q hq => Or.inl hq⟩
+  | some v => exact entries_setKey true k v c
+
+theorem entries_adxApp (z : AdxW F) (c : Candle F) :
+    (∀ q ∈ (adxApp name round z c).inds, q ∈ c.inds ∨ q.1 ∈ adxWKeys name) ∧
+    (∀ q ∈ (adxApp name round z c).subs, q ∈ c.subs ∨ q.1 ∈ adxWKeys name) := by
+  have hst : (∀ q ∈ (adxStore name z.1 c).inds, q ∈ c.inds ∨ q.1 ∈ adxWKeys name) ∧
+      (∀ q ∈ (adxStore name z.1 c).subs, q ∈ c.subs ∨ q.1 ∈ adxWKeys name) := by
+    obtain ⟨s, w⟩ := z
+    cases s with
+    | none => exact ⟨fun q hq => Or.inl hq, fun q hq => Or.inl hq⟩
+    | some t =>
+      obtain ⟨d, a, b, ox⟩ := t
+      have e1 := entries_setKey true (name ++ "_data") d c
+      have e2 := entries_setKey true (name ++ "_pos") a (setKey true (name ++ "_data") d c)
+      have e3 := entries_setKey true (name ++ "_neg") b
+        (setKey true (name ++ "_pos") a (setKey true (name ++ "_data") d c))
+      have e4 := entries_setD (name ++ "_dx") ox (adxSt name d a b c)
+      constructor
+      · intro q hq
+        rcases e4.1 q hq with h | h
+        · rcases e3.1 q h with h | h
+          · rcases e2.1 q h with h | h
+            · rcases e1.1 q h with h | h
+              · exact Or.inl h
+              · exact Or.inr (by simp [adxWKeys, h])
+            · exact Or.inr (by simp [adxWKeys, h])
+          · exact Or.inr (by simp [adxWKeys, h])
+        · exact Or.inr (by simp [adxWKeys, h])
+      · intro q hq
+        rcases e4.2 q hq with h | h
+        · rcases e3.2 q h with h | h
+          · rcases e2.2 q h with h | h
+            · rcases e1.2 q h with h | h
+              · exact Or.inl h
+              · exact Or.inr (by simp [adxWKeys, h])
+            · exact Or.inr (by simp [adxWKeys, h])
+          · exact Or.inr (by simp [adxWKeys, h])
+        · exact Or.inr (by simp [adxWKeys, h])
+  constructor
+  · intro q hq
+    rcases (entries_setKey false name _ _).1 q hq with h | h
+    · exact hst.1 q h
+    · exact Or.inr (by simp [adxWKeys, h])
+  · intro q hq
+    rcases (entries_setKey false name _ _).2 q hq with h | h
+    · exact hst.2 q h
+    · exact Or.inr (by simp [adxWKeys, h])
+
+/-! #### key locality, stability, absorption -/
+
+theorem adxCur_of_simK (hn : AdxNames name) (c c' : Candle F) (h : SimK (adxRKeys name) c c') :
+    AdxCur name c c' where
+  bare := h.1
+  atr := sees_key _ _ hn.kA (by simp [adxRKeys]) c c' h
+  dI := (h.2 _ (by simp [adxRKeys])).1
+  pI := (h.2 _ (by simp [adxRKeys])).1
+  gI := (h.2 _ (by simp [adxRKeys])).1
+  xI := (h.2 _ (by simp [adxRKeys])).1
+
+theorem adxCur_app (hn : AdxNames name) (z : AdxW F) (c : Candle F) : AdxCur name (adxApp name round z c) c where
+  bare := (frameK_adxApp name round z c).1
+  atr := by
+    have hf := (frameK_adxApp name round z c).2 (name ++ "_atr") (by
+      simp [adxWKeys, hn.AD, hn.AP, hn.AG, hn.AX, hn.nA.symm])
+    rw [readingByCandle_key _ hn.kA, readingByCandle_key _ hn.kA]
+    unfold lookupKey
+    rw [hf.1, hf.2]
+  dI := inds_adxApp name round _ hn.nD z c
+  pI := inds_adxApp name round _ hn.nP z c
+  gI := inds_adxApp name round _ hn.nG z c
+  xI := inds_adxApp name round _ hn.nX z c
+
+theorem adxApp_absorb (hn : AdxNames name) (z : AdxW F) (c d : Candle F)
+    (hd : SimK (adxWKeys name) d (adxApp name round z c)) : adxApp name round z d = d := by
+  obtain ⟨s, w⟩ := z
+  have hN : dlookup name d.inds = some (w.roundBy round) := by
+    rw [(hd.2 name (by simp [adxWKeys])).1]
+    show dlookup name (dset name _ _) = _
+    exact dlookup_dset_self _ _ _
+  cases s with
+  | none =>
+    show setKey false name (w.roundBy round) d = d
+    exact setKey_ind_absorb _ _ _ hN
+  | some t =>
+    obtain ⟨dd, a, b, ox⟩ := t
+    have hsubs : ∀ k ∈ [name ++ "_data", name ++ "_pos", name ++ "_neg", name ++ "_dx"],
+        dlookup k d.subs = dlookup k (setD (name ++ "_dx") ox (adxSt name dd a b c)).subs := by
+      intro k hk
+      exact (hd.2 k (by simp [adxWKeys] at hk ⊢; rcases hk with h | h | h | h <;> simp [h])).2
+    have hD : dlookup (name ++ "_data") d.subs = some dd := by
+      rw [hsubs _ (by simp)]
+      cases ox <;>
+        simp [setD, adxSt, dlookup_dset_ne _ _ _ _ hn.DX.symm, dlookup_dset_ne _ _ _ _ hn.DG.symm,
+          dlookup_dset_ne _ _ _ _ hn.DP.symm, dlookup_dset_self]
+    have hP : dlookup (name ++ "_pos") d.subs = some a := by
+      rw [hsubs _ (by simp)]
+      cases ox <;>
+        simp [setD, adxSt, dlookup_dset_ne _ _ _ _ hn.PX.symm, dlookup_dset_ne _ _ _ _ hn.PG.symm,
+          dlookup_dset_self]
+    have hG : dlookup (name ++ "_neg") d.subs = some b := by
+      rw [hsubs _ (by simp)]
+      cases ox <;> simp [setD, adxSt, dlookup_dset_ne _ _ _ _ hn.GX.symm, dlookup_dset_self]
+    have hSt : adxSt name dd a b d = d := by
+      unfold adxSt
+      rw [setKey_sub_absorb _ _ _ hD, setKey_sub_absorb _ _ _ hP, setKey_sub_absorb _ _ _ hG]
+    show setKey false name (w.roundBy round) (setD (name ++ "_dx") ox (adxSt name dd a b d)) = d
+    rw [hSt]
+    cases ox with
+    | none => exact setKey_ind_absorb _ _ _ hN
+    | some x =>
+      have hX : dlookup (name ++ "_dx") d.subs = some x := by
+        rw [hsubs _ (by simp)]
+        simp [setD, dlookup_dset_self]
+      show setKey false name (w.roundBy round) (setKey true (name ++ "_dx") x d) = d
+      rw [setKey_sub_absorb _ _ _ hX]
+      exact setKey_ind_absorb _ _ _ hN
+
+/-! #### the pass -/
+
+/-- the node's loop over raw candles is the row-major fold -/
+theorem nodeLoop_runA (hn : AdxNames name) (hp : 1 ≤ p) (hs : 1 ≤ signal) (R : List (Candle F)) :
+    ∀ (H : List (Candle F)), (∀ r ∈ R, (adxCompP (F := F) name round p signal).Raw r) →
+      Gen.nodeLoop (specWith (adxP name round p signal) (adxC name p signal)) (H ++ R) H.length R.length
+        = (adxCompP name round p signal).rowFrom H R := by
+  induction R with
+  | nil => intro H _; simp [Gen.nodeLoop, TComp.rowFrom_nil]
+  | cons r R' ih =>
+    intro H hR
+    have hr := hR r (by simp)
+    have hrs : (adxCompP (F := F) name round p signal).rowStep H r = (do
+        let z ← adxVal name p signal H r; pure (H ++ [adxApp name round z r])) := rfl
+    rw [List.length_cons, Gen.nodeLoop, pyIndex_append_cons, TComp.rowFrom_cons, hrs]
+    have hpres : present (specWith (adxP (F := F) name round p signal) (adxC name p signal)).name r = false :=
+      present_of_noKey _ r (by
+        show hasKey (adxP (F := F) name round p signal).name r = false
+        rw [adxP_name]; exact hr.1)
+    simp only [bind, Except.bind, hpres, Bool.false_eq_true, if_false]
+    have hstep : (specWith (adxP name round p signal) (adxC name p signal)).step (H ++ r :: R') H.length = (do
+        let z ← adxVal name p signal H r
+        pure (H ++ adxApp name round z r :: R')) :=
+      stepWith_adxC name round p signal hn hp hs H r R'
+    rw [hstep]
+    cases hv : adxVal name p signal H r with
+    | error e => rfl
+    | ok z =>
+      simp only [bind, Except.bind, pure, Except.pure]
+      have := ih (H ++ [adxApp name round z r]) (fun x hx => hR x (by simp [hx]))
+      simpa using this
+
+/-- **the laws of the ADX node's own step** -/
+theorem adxCompP_law (hn : AdxNames name) (hp : 1 ≤ p) (hs : 1 ≤ signal) :
+    TComp.Law (adxCompP (F := F) name round p signal) where
+  name_w := by simp [adxCompP, adxWKeys]
+  app_frame := fun z c => frameK_adxApp name round z c
+  app_key := fun z c => hasKey_setKey _ _ _ _
+  app_entries := fun z c => entries_adxApp name round z c
+  app_sim := fun keys z c c' h => simK_adxApp name round keys z c c' h
+  raw_nokey := fun c h => h.1
+  raw_of := fun c h => ⟨h name (by simp [adxCompP, adxWKeys]), h _ (by simp [adxCompP, adxWKeys]),
+    h _ (by simp [adxCompP, adxWKeys]), h _ (by simp [adxCompP, adxWKeys]), h _ (by simp [adxCompP, adxWKeys])⟩
+  val_sim := fun H H' c c' hH hc =>
+    adxVal_congr name p signal hn H H' c c' hH (adxCur_of_simK name hn c c' hc)
+  stable := by
+    intro H c z _ hv
+    show adxVal name p signal H (adxApp name round z c) = .ok z
+    rw [adxVal_congr name p signal hn H H _ c (SimL.refl _ H) (adxCur_app name round hn z c)]
+    exact hv
+  absorb := fun z c d _ hd => adxApp_absorb name round hn z c d hd
+  settled_nil := by intro d hd; cases hd
+  settled_step := by
+    intro H r z hs _ _ d hd
+    rcases List.mem_append.1 hd with h | h
+    · exact hs d h
+    · simp at h; subst h; exact hasKey_setKey _ _ _ _
+  settled_sim := by
+    intro H H' hs hsim d' hd'
+    obtain ⟨d, hd, hdd⟩ := TComp.forall₂_mem_right' hsim d' hd'
+    rw [← hasKey_simK (keys := (adxCompP (F := F) name round p signal).rkeys ++
+      (adxCompP (F := F) name round p signal).wkeys) (by simp [adxCompP, adxWKeys]) hdd]
+    exact hs d hd
+  pass_iff := by
+    intro H R out hs' hR
+    have key : Gen.nodeCalc (specWith (adxP name round p signal) (adxC name p signal)) (H ++ R)
+        = (adxCompP name round p signal).rowFrom H R := by
+      unfold Gen.nodeCalc
+      have hnm : (specWith (adxP (F := F) name round p signal) (adxC name p signal)).name = name :=
+        adxP_name (F := F) name round p signal
+      rw [hnm, findCalcIndex_split name H R hs' (fun r hr => (hR r hr).1)]
+      have : (H ++ R).length - H.length = R.length := by simp
+      rw [this]
+      exact nodeLoop_runA name round p signal hn hp hs R H hR
+    show Gen.nodeCalc (specWith (adxP name round p signal) (adxC name p signal)) (H ++ R) = .ok out ↔ _
+    rw [key]
+
+end adxComp
+end Hex
+
+namespace Hex
+open Adx
+set_option linter.unusedSectionVars false
+variable {F : Type} [PyF F]
+
+section adxTree
+variable (name : String) (round : Nat) (p signal : Int) (hp : 1 ≤ p)
+
+/-- the pieces: the TR leaf and the own reading of the ATR helper … -/
+def adxCompT : TComp F := leafComp (adxTr name) (trT _ rfl)
+def adxCompA (hn : AdxNames name) : TComp F := leafComp (adxA name p) (atrOwnT _ p rfl hp hn.kA hn.kT hn.AT)
+/-- … run one after the other (the prior ATR subtree) … -/
+def adxCompX (hn : AdxNames name) : TComp F := TComp.seq (adxCompT name) (adxCompA name p hp hn)
+/-- … followed by the node's own step -/
+def adxComp (hn : AdxNames name) : TComp F :=
+  TComp.seq (adxCompX name p hp hn) (adxCompP name round p signal)
+
+theorem adxCompX_law (hn : AdxNames name) : TComp.Law (adxCompX (F := F) name p hp hn) := by
+  unfold adxCompX
+  refine TComp.seq_law (leafComp_law _ _) (leafComp_law _ _) ?_
+  constructor <;> intro k hk <;>
+    simp [adxCompT, adxCompA, leafComp, trT, atrOwnT, adxTr_name, adxA_name] at hk ⊢ <;>
+    rintro rfl <;>
+    simp [hn.AT] at hk
+
+theorem adxComp_law (hs : 1 ≤ signal) (hn : AdxNames name) :
+    TComp.Law (adxComp (F := F) name round p signal hp hn) := by
+  unfold adxComp
+  refine TComp.seq_law (adxCompX_law name p hp hn) (adxCompP_law name round p signal hn hp hs) ?_
+  constructor
+  · intro k hk
+    simp [adxCompX, TComp.seq, adxCompT, adxCompA, adxCompP, adxWKeys, leafComp, trT, atrOwnT, adxTr_name,
+      adxA_name] at hk ⊢
+    rcases hk with rfl | rfl | rfl <;>
+      exact ⟨by first | exact hn.AD | exact hn.TD, by first | exact hn.AP | exact hn.TP,
+        by first | exact hn.AG | exact hn.TG, by first | exact hn.AX | exact hn.TX,
+        by first | exact hn.nA.symm | exact hn.nT.symm⟩
+  · intro k hk
+    simp [adxCompX, TComp.seq, adxCompT, adxCompA, adxCompP, adxWKeys, leafComp, trT, atrOwnT, adxTr_name,
+      adxA_name] at hk ⊢
+    rcases hk with rfl | rfl <;>
+      exact ⟨by first | exact hn.AD | exact hn.TD, by first | exact hn.AP | exact hn.TP,
+        by first | exact hn.AG | exact hn.TG, by first | exact hn.AX | exact hn.TX,
+        by first | exact hn.nA.symm | exact hn.nT.symm⟩
+
+theorem allNames_adx : (adxP (F := F) name round p signal).allNames
+    = [name, name ++ "_atr", name ++ "_atr" ++ "_TR", name ++ "_data", name ++ "_pos", name ++ "_neg",
+       name ++ "_dx"] := by
+  simp [adxP, mkTop, children, Ind.allNames_eq, atrNode, leaf, Ind.name, Ind.subs, Ind.managed]
+
+/-- **ADX as a tree with a row-major spec** (`period ≥ 1`, `signal ≥ 1`, ordinary distinct names). -/
+def adxTree (hs : 1 ≤ signal) (hn : AdxNames name) : TreeSpec (mkTop (.adx p signal : Kind F) name round) :=
+  TreeSpec.ofComp (ind := adxP (F := F) name round p signal)
+    (adxComp name round p signal hp hn) (adxComp_law name round p signal hp hs hn)
+    (fun c hc => (adxComp_law name round p signal hp hs hn).raw_of c (fun k _ => hasKey_plain k c hc))
+    (by
+      intro k hk
+      rw [allNames_adx]
+      simp [adxComp, adxCompX, TComp.seq, adxCompT, adxCompA, adxCompP, adxWKeys, leafComp, adxTr_name,
+        adxA_name] at hk ⊢
+      rcases hk with h | h | h | h | h | h | h <;> simp [h])
+    (by
+      intro cs
+      rw [engineCalc_adx]
+      show _ = (do
+        let cs₁ ← (do let c ← leafCalc (adxTr name) cs; leafCalc (adxA name p) c)
+        Gen.nodeCalc (specWith (adxP name round p signal) (adxC name p signal)) cs₁)
+      cases leafCalc (adxTr (F := F) name) cs with
+      | error e => rfl
+      | ok c₁ => simp only [bind, Except.bind])
+
+end adxTree
+
+/-- the hypotheses are met by the default name of `ADX(period=3, signal=3)` -/
+example : AdxNames "ADX_3_3" :=
+  ⟨by decide, by decide, by decide, by decide, by decide, by decide, by decide, by decide, by decide, by decide,
+    by decide, by decide, by decide, by decide, by decide, by decide, by decide, by decide, by decide, by decide,
+    by decide, by decide, by decide, by decide, by decide, by decide, by decide, by decide⟩
+
+example : Nonempty (TreeSpec (mkTop (.adx 3 3 : Kind F) "ADX_3_3" 4)) :=
+  ⟨adxTree "ADX_3_3" 4 3 3 (by decide) (by decide)
+    ⟨by decide, by decide, by decide, by decide, by decide, by decide, by decide, by decide, by decide, by decide,
+      by decide, by decide, by decide, by decide, by decide, by decide, by decide, by decide, by decide, by decide,
+      by decide, by decide, by decide, by decide, by decide, by decide, by decide, by decide⟩⟩
+
+end Hex
+
+#print axioms Hex.adxTree
+#print axioms Hex.engineCalc_adx
+#print axioms Hex.stepWith_adxC
